@@ -9,5 +9,7 @@ HARNESSES += _load("sg_common").sg_harnesses(("SEL_FAULT",))
 # H1: public wrappers with a codec that may return short / fail its seek / fail the header write
 HARNESSES += [h for h in _load("C05").HARNESSES if h.name.startswith("wrap.") and ".ch2" in h.name and "probe" not in h.name and "_raw" not in h.name]
 HARNESSES += _load("C06").seek_harnesses()
+# H6: sf_close of an ALAC encoder under output faults still releases the spool stream, the temporary file and every block
+HARNESSES += [h for h in _load("C16").alac_harnesses() if "faulty" in h.name]
 META = {"assumptions": ["fault model = E-memfile MF_FAULTY: per call, any shorter transfer, failing seek, arbitrary tell/length answers"],
         "outside": ["block codecs, header parsers/writers and close under faults (see DESIGN)", "real OS errors"]}
